@@ -8,7 +8,8 @@
  "loop_contracts": false,
  "cflags": ["-msse4.2"],
  "matrix": {"W": [8, 32, 64]},
- "timeout": 300,
+ "backend": "kissat",
+ "timeout": 400,
  "assumptions": ["leaf lemma (L-sub): the Intel SDM pseudo-code of CRC32 r32/r64, r/m8|32|64 (models/x86_crc32.c:x86sdm_crc32) equals W/8 bit-serial CRC-32C byte steps on the source bytes, least significant first, for all states and sources; constant loop bounds"]
 }
 */
